@@ -398,7 +398,7 @@ class LSFScriptAdapter(SchedulerScriptAdapter):
         """
         # If we don't have any jobs to check, just return status OK.
         if not joblist:
-            return CancelCode.OK
+            return CancellationRecord(CancelCode.OK, 0)
 
         cmd = "bkill {}".format(" ".join(joblist))
         p = Popen(cmd, shell=True, stdout=PIPE, stderr=PIPE)
